@@ -1,3 +1,52 @@
+/-
+  C14 / C17 -- scope reduction **as a read option** (`DictReader.read(..., scope=…)`), through `DictParser.parse`, and the
+  two spellings of `--scope` on the command line.  (`Props/C14.lean` is about `SDict.reduce_scope` called directly.)
+
+  What is proved (all for every file system, counter, path, `eval`, options and key type: `Key` = int or str, key text
+  is compared with `=` and never interpreted):
+
+  * `C14_read_scope`            the scoped and the unscoped read run the same `readCore` (parse, merge includes, evaluate
+                                expressions): same errors (`C14_read_scope_errors`), same counter.  On its result `sd₀` the
+                                unscoped read returns `post o sd₀` (order, then include-key removal), the scoped read returns
+                                `exit1` when `pathExists sd₀.data scope` is false and `post o (sd₀.reduceScope scope)` otherwise.
+                                The scope step comes BEFORE ordering and BEFORE include-key removal.
+  * `C14_read_scope_unordered`, `C14_read_scope_of_unscoped`
+                                the scoped read expressed through what the unscoped (unordered) read *returns*:
+                                scoped = unscoped ; scope step on the returned dict ; (`includes=False`: include-key removal
+                                on the new top level) ; (`order=True`: `order_keys`).  Hypothesis `FirstKeyOK`: vacuous for
+                                `includes=True`; for `includes=False` the first scope key must not match `INCLUDE[0-9;]+`.
+                                The commutations used: include-key removal vs. scope step (`scopeOut_eq_scopeStep`),
+                                ordering is last (`C15.readFile_order_flag`).
+  * `C14_read_scope_data`, `C14_read_scope_data_core`, `C14_read_scope_plain`, `C14_read_scope_exact_subdict`
+                                the data of a scoped read is the sub-dict at that path of the unscoped read's data
+                                (`scopeOf … = some sub`, `getPath … = some (.dict sub)`), rebuilt by `update`, `_clean`ed
+                                (`C14.reduce_scope_exact_data`); it is literally `sub` when `sub` has unique keys and no
+                                comment / include placeholder keys.
+  * `C14_read_scope_ordered`, `reduceScope_order_comm`, `scopeOf_orderD`, `pathExists_orderD`
+                                `order_keys` commutes with following a scope path (unique keys), and `reduce_scope` commutes
+                                with `order_keys` when the sub-dict holds no placeholder keys.
+  * `C14_read_scope_missing`, `C14_read_scope_missing_core`
+                                a path that does not exist: `exit1`; `read` and `parse` return `exit1` and the world (files and
+                                counter) is unchanged (`C13api.step_fail_safe`): nothing is written.
+  * `C14_parse_scope_target`    `parse` with an existing scope writes exactly the file
+                                `dir/targetName name "parsed" (scope.map keyText) output`, returns the scoped dict, touches no
+                                other path; if the serialiser gives up nothing is written.
+  * `C17_scope_word_list`, `scope_word_vs_list`, `scope_number_word_vs_list'`
+                                `--scope w` and `--scope [w]` give the same one-element scope for a word without blanks,
+                                brackets, commas, quotes that `parse_value` types as a string; in general the list form is
+                                `[parse_value w]`, the word form `[w]` (finding D25 for every number / bool / none word).
+
+  Refuted (witnesses replayed on the real code, same results):
+  * `C14_read_scope_data_statement_false`     with `includes=False` and an `#include` line inside the sub-dict, the scoped read
+                                drops the placeholder entry `INCLUDE000000`, the unscoped read keeps it in the nested dict.
+  * `C14_read_scope_missing_statement_false`  with `includes=False` and a scope key matched by `INCLUDE[0-9;]+` (`myINCLUDE0`),
+                                the unscoped read has deleted the entry, the scoped read finds it.
+  * `reduceScope_order_comm_false`            on arbitrary SDicts `reduce_scope` and `order_keys` do not commute (`_clean`
+                                keeps the first of two comments with equal text); not known to be reachable from a file.
+
+  Assumed / not covered: argparse and the conversion of `_validate_scope`'s result (scalars) to dict keys are not
+  modelled; JSON / XML targets of `parse` make the model give up; `C14_read_scope_ordered` is for `includes=True` only.
+-/
 import DictIO.Props.C14
 import DictIO.Props.C07
 import DictIO.Props.C13api
@@ -50,6 +99,16 @@ def dataOf : Except ParseErr ReadOut → Option Entries
   | _ => none
 
 /-! ## helper lemmas -/
+
+/-- a read whose data is known returned a dict -/
+theorem exists_of_dataOf {x : Except ParseErr ReadOut} {d : Entries} (h : dataOf x = some d) :
+    ∃ u c', x = .ok (.ok u c') ∧ u.data = d := by
+  cases x with
+  | error e => cases h
+  | ok r =>
+    cases r with
+    | exit1 => cases h
+    | ok u c' => exact ⟨u, c', rfl, by simpa [dataOf] using h⟩
 
 /-- `readFile` is `readCore`, then the scope step, ordering and include-key removal -/
 theorem readFile_core (ev : Str → EvalResult) (fs : FS) (o : ReadOpts) (c : Counter) (p : Comps) :
@@ -245,6 +304,102 @@ theorem reduceScope_order_comm {s : SD} {scope : List Key} {sub : Entries} (hs :
   rw [h1, h2]
   rfl
 
+/-! #### `_validate_scope` -/
+
+theorem dropWhile_all_false {p : Char → Bool} : ∀ {l : Str}, (∀ c ∈ l, p c = false) → l.dropWhile p = l
+  | [], _ => rfl
+  | c :: r, h => by simp [List.dropWhile, h c List.mem_cons_self]
+
+theorem dropEndQuote_id : ∀ (s : Str), (∀ c ∈ s, isQuote c = false) → dropEndQuote s = s
+  | [], _ => rfl
+  | [c], h => by simp [dropEndQuote, h c (by simp)]
+  | c :: d :: r, h => by
+    have hc := h c (by simp)
+    have ih := dropEndQuote_id (d :: r) fun x hx => h x (List.mem_cons_of_mem _ hx)
+    by_cases hd : d = '\n' ∧ r = []
+    · obtain ⟨rfl, rfl⟩ := hd
+      simp [dropEndQuote, hc]
+    · have : dropEndQuote (c :: d :: r) = c :: dropEndQuote (d :: r) := by
+        rw [dropEndQuote]
+        · intro e1; cases e1
+        · intro e1; cases e1; exact hd ⟨rfl, rfl⟩
+      rw [this, ih]
+
+theorem removeQuotes_id {s : Str} (h : ∀ c ∈ s, isQuote c = false) : removeQuotes s = s := by
+  cases s with
+  | nil => rfl
+  | cons c cs =>
+    simp only [removeQuotes, h c List.mem_cons_self, Bool.false_eq_true, if_false]
+    exact dropEndQuote_id _ h
+
+theorem boolNoneWord_not_str {w s : Str} : boolNoneWord w ≠ some (.str s) := by
+  unfold boolNoneWord
+  simp only []
+  repeat (split; · simp)
+  simp
+
+/-- a quote-free word that `parse_value` types as a string is kept as it is -/
+theorem parseValue_str_noquote {w s : Str} (hq : ∀ c ∈ w, isQuote c = false) (h : parseValue w = .str s) : s = w := by
+  unfold parseValue at h
+  rw [removeQuotes_id hq] at h
+  split at h
+  · rename_i he
+    cases w with
+    | nil => simpa using h.symm
+    | cons c r => simp at he
+  · split at h
+    · simpa using h.symm
+    · split at h
+      · cases h
+      · split at h
+        · cases h
+        · split at h
+          · cases h
+          · split at h
+            · rename_i v hv
+              subst h
+              exact absurd hv boolNoneWord_not_str
+            · simpa using h.symm
+
+theorem splitComma_no_comma : ∀ {w : Str}, ',' ∉ w → splitComma w = [w]
+  | [], _ => rfl
+  | c :: r, h => by
+    have hc : c ≠ ',' := fun e => h (e ▸ List.mem_cons_self)
+    have ih := splitComma_no_comma (w := r) fun hm => h (List.mem_cons_of_mem _ hm)
+    rw [splitComma]
+    · simp [ih]
+    · intro e; cases e; exact hc rfl
+
+/-- the characters `_validate_scope` treats specially: blanks (and all white space), brackets, commas -/
+def PlainWord (w : Str) : Prop := ∀ c ∈ w, c ≠ '[' ∧ c ≠ ']' ∧ c ≠ ',' ∧ isWs c = false
+
+instance (w : Str) : Decidable (PlainWord w) := by unfold PlainWord; infer_instance
+
+theorem strip_plain {w : Str} (h : ∀ c ∈ w, isWs c = false) : strip w = w := by
+  unfold strip
+  rw [dropWhile_all_false h, dropWhile_all_false (by simpa using h), List.reverse_reverse]
+
+theorem stripScopeChars_bracketed {w : Str} (h : PlainWord w) : stripScopeChars ('[' :: (w ++ [']'])) = w := by
+  have hp : ∀ c ∈ w, (c == ' ' || c == '[' || c == ']') = false := by
+    intro c hc
+    obtain ⟨h1, h2, _, h4⟩ := h c hc
+    have h0 : c ≠ ' ' := fun e => by subst e; exact absurd h4 (by decide)
+    simp [h0, h1, h2]
+  unfold stripScopeChars
+  simp only [List.dropWhile_cons, BEq.rfl, Bool.or_true, Bool.true_or, if_true]
+  cases w with
+  | nil => simp
+  | cons c r =>
+    have hc := hp c List.mem_cons_self
+    have hr : ∀ x ∈ (c :: r).reverse, (x == ' ' || x == '[' || x == ']') = false := by
+      intro x hx; exact hp x (List.mem_reverse.mp hx)
+    rw [List.cons_append, List.dropWhile_cons, hc]
+    simp only [Bool.false_eq_true, if_false]
+    rw [← List.cons_append, List.reverse_append, List.reverse_singleton, List.singleton_append, List.dropWhile_cons]
+    simp only [BEq.rfl, Bool.or_true, if_true]
+    rw [dropWhile_all_false hr, List.reverse_reverse]
+
+
 /-! ## property theorems -/
 
 /-- **C14, scope as a read option (exact factorisation)**: for a non-empty scope, the scoped read and the unscoped read
@@ -276,7 +431,7 @@ theorem C14_read_scope_errors (ev : Str → EvalResult) (fs : FS) (o : ReadOpts)
 
 /-- **C14, the scoped read in terms of the unscoped read** (`order=False`): the scoped read is the unscoped read followed
     by the scope step on *its* result — `exit1` if the path does not exist there, else `reduce_scope` (and, for
-    `includes=False`, include-key removal on the new top level).  Hypothesis `FirstKeyOK`: see `…_needs_first_key`. -/
+    `includes=False`, include-key removal on the new top level).  Hypothesis `FirstKeyOK`: see `C14_read_scope_missing_statement_false`. -/
 theorem C14_read_scope_unordered (ev : Str → EvalResult) (fs : FS) (o : ReadOpts) (c : Counter) (p : Comps)
     (hs : o.scope ≠ []) (hk : FirstKeyOK o = true) (ho : o.order = false) :
     readFile ev fs o c p = (readFile ev fs { o with scope := [] } c p).map (scopeStep o.includes o.scope) := by
@@ -309,6 +464,452 @@ theorem C14_read_scope_of_unscoped (ev : Str → EvalResult) (fs : FS) (o : Read
     simp only at h h'
     rw [h, h']
     rfl
+
+/-- what the scoped read returns when the unscoped, unordered read returned `u` and the scope leads to `sub` there -/
+def scopedSD (o : ReadOpts) (u : SD) (sub : Entries) : SD :=
+  ordIf o.order (dropIncl o.includes (SD.clean { u with data := updateD [] sub }))
+
+/-- forward form: the unscoped read and the sub-dict at the path determine the scoped read -/
+theorem read_scope_forward (ev : Str → EvalResult) (fs : FS) (o : ReadOpts) (c : Counter) (p : Comps)
+    (hs : o.scope ≠ []) (hk : FirstKeyOK o = true) {u : SD} {c' : Counter} {sub : Entries}
+    (hU : readFile ev fs { o with scope := [], order := false } c p = .ok (.ok u c'))
+    (hsub : scopeOf u.data o.scope = some sub) :
+    readFile ev fs o c p = .ok (.ok (scopedSD o u sub) c') := by
+  rw [C14_read_scope_of_unscoped ev fs o c p hs hk, hU]
+  simp only [Except.map, scopeStep, pathExists_true_of_scopeOf_some hsub, if_true, C15.ReadOut.mapSD, scopedSD,
+    C14.reduce_scope_exact hs hsub]
+
+/-- **C14, the data of a scoped read**: whenever a scoped read returns a dict `S`, the unscoped (unordered) read returns
+    a dict `U` with the same counter, the scope path leads through dicts to a sub-dict `sub` of `U`'s data (for every key
+    type: `scopeOf` compares keys with `=`), and `S` is `U` reduced to `sub`: the data rebuilt by `update` (`updateD []`),
+    `_clean`, include-key removal when `includes=False`, `order_keys` when `order=True`. -/
+theorem C14_read_scope_data (ev : Str → EvalResult) (fs : FS) (o : ReadOpts) (c : Counter) (p : Comps)
+    (hs : o.scope ≠ []) (hk : FirstKeyOK o = true) {S : SD} {c' : Counter}
+    (h : readFile ev fs o c p = .ok (.ok S c')) :
+    ∃ u sub, readFile ev fs { o with scope := [], order := false } c p = .ok (.ok u c') ∧
+      scopeOf u.data o.scope = some sub ∧ getPath (.dict u.data) o.scope = some (.dict sub) ∧
+      S = scopedSD o u sub ∧ (u.reduceScope o.scope).data = (SD.clean { u with data := updateD [] sub }).data := by
+  rw [C14_read_scope_of_unscoped ev fs o c p hs hk] at h
+  cases hU : readFile ev fs { o with scope := [], order := false } c p with
+  | error e => rw [hU] at h; cases h
+  | ok r =>
+    rw [hU] at h
+    cases r with
+    | exit1 => cases h
+    | ok u cu =>
+      simp only [Except.map, scopeStep] at h
+      cases hsc : scopeOf u.data o.scope with
+      | none =>
+        rw [pathExists_false_of_scopeOf_none hsc] at h
+        cases h
+      | some sub =>
+        rw [pathExists_true_of_scopeOf_some hsc] at h
+        simp only [if_true, C15.ReadOut.mapSD, Except.ok.injEq, ReadOut.ok.injEq] at h
+        obtain ⟨hS, hc⟩ := h
+        subst hc
+        refine ⟨u, sub, rfl, hsc, C14.scopeOf_getPath _ _ _ hsc, ?_, C14.reduce_scope_exact_data hs hsc⟩
+        rw [← hS, C14.reduce_scope_exact hs hsc]; rfl
+
+/-- the same with respect to the dict before ordering and include-key removal: no hypothesis on the scope keys -/
+theorem C14_read_scope_data_core (ev : Str → EvalResult) (fs : FS) (o : ReadOpts) (c : Counter) (p : Comps)
+    (hs : o.scope ≠ []) {S : SD} {c' : Counter} (h : readFile ev fs o c p = .ok (.ok S c')) :
+    ∃ sd₀ sub, readCore ev fs o c p = .ok (sd₀, c') ∧
+      readFile ev fs { o with scope := [] } c p = .ok (.ok (post o sd₀) c') ∧
+      scopeOf sd₀.data o.scope = some sub ∧ getPath (.dict sd₀.data) o.scope = some (.dict sub) ∧
+      S = post o (SD.clean { sd₀ with data := updateD [] sub }) := by
+  obtain ⟨h1, h2⟩ := C14_read_scope ev fs o c p hs
+  rw [h1] at h
+  rw [h2]
+  cases hc : readCore ev fs o c p with
+  | error e => rw [hc] at h; cases h
+  | ok r =>
+    obtain ⟨sd₀, c₀⟩ := r
+    rw [hc] at h
+    simp only [Except.map, scopeOut] at h
+    cases hsc : scopeOf sd₀.data o.scope with
+    | none => rw [pathExists_false_of_scopeOf_none hsc] at h; cases h
+    | some sub =>
+      rw [pathExists_true_of_scopeOf_some hsc] at h
+      simp only [if_true, Except.ok.injEq, ReadOut.ok.injEq] at h
+      obtain ⟨hS, hcc⟩ := h
+      subst hcc
+      refine ⟨sd₀, sub, rfl, rfl, hsc, C14.scopeOf_getPath _ _ _ hsc, ?_⟩
+      rw [← hS, C14.reduce_scope_exact hs hsc]
+
+/-- **default options** (`includes=True`, `order=False`): the unscoped read determines the scoped read completely -/
+theorem C14_read_scope_plain (ev : Str → EvalResult) (fs : FS) (o : ReadOpts) (c : Counter) (p : Comps)
+    (hs : o.scope ≠ []) (hi : o.includes = true) (ho : o.order = false) {u : SD} {c' : Counter}
+    (hU : readFile ev fs { o with scope := [] } c p = .ok (.ok u c')) :
+    readFile ev fs o c p =
+      match scopeOf u.data o.scope with
+      | some sub => .ok (.ok (SD.clean { u with data := updateD [] sub }) c')
+      | none => .ok .exit1 := by
+  rw [C14_read_scope_unordered ev fs o c p hs (by simp [FirstKeyOK, hi]) ho, hU]
+  simp only [Except.map, scopeStep, hi, dropIncl, if_true]
+  cases hsc : scopeOf u.data o.scope with
+  | none => simp only [pathExists_false_of_scopeOf_none hsc, Bool.false_eq_true, if_false]
+  | some sub => simp only [pathExists_true_of_scopeOf_some hsc, if_true, C14.reduce_scope_exact hs hsc]
+
+/-- … and when the sub-dict has unique keys and no comment / include placeholder keys, the scoped read returns
+    **precisely the sub-dict**, side tables as in the unscoped read -/
+theorem C14_read_scope_exact_subdict (ev : Str → EvalResult) (fs : FS) (o : ReadOpts) (c : Counter) (p : Comps)
+    (hs : o.scope ≠ []) (hi : o.includes = true) (ho : o.order = false) {u : SD} {c' : Counter} {sub : Entries}
+    (hU : readFile ev fs { o with scope := [] } c p = .ok (.ok u c'))
+    (hsub : scopeOf u.data o.scope = some sub) (hn : NodupKeysV (.dict sub)) (hp : C07.NoPhEs sub) :
+    readFile ev fs o c p = .ok (.ok { u with data := sub } c') := by
+  rw [C14_read_scope_plain ev fs o c p hs hi ho hU, hsub]
+  simp only [C14.updateD_nil_of_nodup hn.1]
+  rw [C07.clean_id { u with data := sub } hn hp]
+
+/-- **`order=True`** (includes merged): the ordered scoped read is the ordered unscoped read reduced to the scope, and its
+    data is the ordered sub-dict — on the domain of `reduceScope_order_comm` -/
+theorem C14_read_scope_ordered (ev : Str → EvalResult) (fs : FS) (o : ReadOpts) (c : Counter) (p : Comps)
+    (hs : o.scope ≠ []) (hi : o.includes = true) {u : SD} {c' : Counter} {sub : Entries}
+    (hU : readFile ev fs { o with scope := [], order := false } c p = .ok (.ok u c'))
+    (hn : NodupKeysV (.dict u.data)) (hsub : scopeOf u.data o.scope = some sub) (hp : C07.NoPhEs sub) :
+    readFile ev fs { o with scope := [], order := true } c p = .ok (.ok u.order c') ∧
+    readFile ev fs { o with order := true } c p = .ok (.ok (u.order.reduceScope o.scope) c') ∧
+    u.order.reduceScope o.scope = { u.order with data := orderD sub } := by
+  obtain ⟨inc, ord, com, sc⟩ := o
+  simp only at hi hs hU hsub
+  subst hi
+  obtain ⟨hcomm, h1, h2⟩ := reduceScope_order_comm hs hn hsub hp
+  refine ⟨?_, ?_, h2⟩
+  · have h := C15.readFile_order_flag ev fs ⟨true, false, com, []⟩ c p
+    simp only at h
+    rw [h, hU]; rfl
+  · have h := read_scope_forward ev fs ⟨true, true, com, sc⟩ c p hs rfl hU hsub
+    rw [h, ← hcomm, C14.reduce_scope_exact hs hsub]
+    rfl
+
+/-- **C14, a scope that does not exist**: the scoped read ends in `sys.exit(1)`; `read` and `parse` report it and leave
+    the world (every file, the counter) as it was: nothing is written -/
+theorem C14_read_scope_missing (ev : Str → EvalResult) (w : World) (o : ReadOpts) (p : Comps)
+    (hs : o.scope ≠ []) (hk : FirstKeyOK o = true) {u : SD} {c' : Counter}
+    (hU : readFile ev w.fs { o with scope := [], order := false } w.c p = .ok (.ok u c'))
+    (hm : pathExists u.data o.scope = false) :
+    readFile ev w.fs o w.c p = .ok .exit1 ∧
+    (apiStep ev w (.read p o)).1 = w ∧ (∀ mode output, (apiStep ev w (.parse p o mode output)).1 = w) ∧
+    (∀ b, w.fs.get (resolveSpelled p) = some b →
+      apiStep ev w (.read p o) = (w, .exit1) ∧ ∀ mode output, apiStep ev w (.parse p o mode output) = (w, .exit1)) := by
+  have hr : readFile ev w.fs o w.c p = .ok .exit1 := by
+    rw [C14_read_scope_of_unscoped ev w.fs o w.c p hs hk, hU]
+    simp only [Except.map, scopeStep, hm, Bool.false_eq_true, if_false, C15.ReadOut.mapSD]
+  have hread : ∀ b, w.fs.get (resolveSpelled p) = some b → apiStep ev w (.read p o) = (w, .exit1) := by
+    intro b hg; simp only [apiStep, hg, hr]
+  have hparse : ∀ b, w.fs.get (resolveSpelled p) = some b → ∀ mode output, apiStep ev w (.parse p o mode output) = (w, .exit1) := by
+    intro b hg mode output; simp only [apiStep, hg, hr]
+  refine ⟨hr, ?_, ?_, fun b hg => ⟨hread b hg, hparse b hg⟩⟩
+  · apply C13api.step_fail_safe
+    cases hg : w.fs.get (resolveSpelled p) with
+    | none => simp [apiStep, hg, C13api.Completed]
+    | some b => rw [hread b hg]; simp [C13api.Completed]
+  · intro mode output
+    apply C13api.step_fail_safe
+    cases hg : w.fs.get (resolveSpelled p) with
+    | none => simp [apiStep, hg, C13api.Completed]
+    | some b => rw [hparse b hg]; simp [C13api.Completed]
+
+/-- the same with respect to the dict before ordering and include-key removal (no hypothesis on the scope keys) -/
+theorem C14_read_scope_missing_core (ev : Str → EvalResult) (fs : FS) (o : ReadOpts) (c : Counter) (p : Comps)
+    (hs : o.scope ≠ []) {sd₀ : SD} {c' : Counter} (hc : readCore ev fs o c p = .ok (sd₀, c'))
+    (hm : pathExists sd₀.data o.scope = false) : readFile ev fs o c p = .ok .exit1 := by
+  rw [(C14_read_scope ev fs o c p hs).1, hc]
+  simp only [Except.map, scopeOut, hm, Bool.false_eq_true, if_false]
+
+/-- **C14 / C13, `parse` with a scope**: when the scope exists, `parse` writes exactly one file — in the folder of the
+    source, named `targetName name "parsed" (str(key) for key in scope) output` — and returns the scoped dict; if the
+    serialiser gives up, nothing is written. -/
+theorem C14_parse_scope_target (ev : Str → EvalResult) (w : World) (o : ReadOpts) (dir : Comps) (name : Str)
+    (mode : Str) (output : Option Str) (hs : o.scope ≠ []) (hk : FirstKeyOK o = true) {b : FileBody}
+    (hg : w.fs.get (resolveSpelled (dir ++ [name])) = some b) {u : SD} {c' : Counter} {sub : Entries}
+    (hU : readFile ev w.fs { o with scope := [], order := false } w.c (dir ++ [name]) = .ok (.ok u c'))
+    (hsub : scopeOf u.data o.scope = some sub) :
+    parseTarget (dir ++ [name]) o.scope output =
+      dir ++ [targetName name (some "parsed".toList) (o.scope.map keyText) output] ∧
+    (∀ t c'', writeText ev w.fs (parseTarget (dir ++ [name]) o.scope output) mode o.order (.sd (scopedSD o u sub)) c' = .ok (t, c'') →
+      apiStep ev w (.parse (dir ++ [name]) o mode output) =
+        ({ fs := w.fs.set (resolveSpelled (parseTarget (dir ++ [name]) o.scope output)) (.native t), c := c'' },
+         .data (scopedSD o u sub))) ∧
+    (∀ e, writeText ev w.fs (parseTarget (dir ++ [name]) o.scope output) mode o.order (.sd (scopedSD o u sub)) c' = .error e →
+      apiStep ev w (.parse (dir ++ [name]) o mode output) = (w, .gaveUp e)) ∧
+    (∀ q, q ≠ resolveSpelled (parseTarget (dir ++ [name]) o.scope output) →
+      (apiStep ev w (.parse (dir ++ [name]) o mode output)).1.fs.get q = w.fs.get q) := by
+  have hr := read_scope_forward ev w.fs o w.c (dir ++ [name]) hs hk hU hsub
+  refine ⟨C13api.parse_target_name dir name o.scope output, ?_, ?_, ?_⟩
+  · intro t c'' hw
+    have := C13api.writeTo_ok (ev := ev) (w := { w with c := c' }) hw
+    simp only [apiStep, hg, hr, this]
+  · intro e hw
+    have := C13api.writeTo_error (ev := ev) (w := { w with c := c' }) hw
+    simp only [apiStep, hg, hr, this]
+  · intro q hq
+    apply C13api.step_frame
+    simp only [ApiOp.target, ne_eq, Option.some.injEq]
+    exact fun e => hq e.symm
+
+/-! #### C17: word and list spellings of a scope -/
+
+/-- **C17 / D25, general form**: for a word without blanks, brackets and commas, the word form of `--scope` keeps the
+    text, the one-element list form types it with `parse_value` -/
+theorem scope_word_vs_list {w : Str} (h : PlainWord w) :
+    validateScope (some w) = some [.str w] ∧
+    validateScope (some ("[".toList ++ w ++ "]".toList)) = some [parseValue w] := by
+  have hws : ∀ c ∈ w, isWs c = false := fun c hc => (h c hc).2.2.2
+  constructor
+  · apply C17.scope_word
+    intro r hr
+    rw [dropWhile_all_false hws] at hr
+    exact (h '[' (hr ▸ List.mem_cons_self)).1 rfl
+  · have hcomma : ',' ∉ w := fun hm => (h ',' hm).2.2.1 rfl
+    show validateScope (some ('[' :: (w ++ [']']))) = _
+    have hd : ('[' :: (w ++ [']'])).dropWhile isWs = '[' :: (w ++ [']']) := by
+      rw [List.dropWhile_cons, show isWs '[' = false by decide]; rfl
+    simp only [validateScope, hd, stripScopeChars_bracketed h, splitComma_no_comma hcomma, List.map, strip_plain hws]
+
+/-- **C17**: a word that `parse_value` types as a string selects the same scope as a word and as a bracketed list -/
+theorem C17_scope_word_list {w : Str} (h : PlainWord w) (hq : ∀ c ∈ w, isQuote c = false) (hp : ∃ s, parseValue w = .str s) :
+    validateScope (some w) = some [.str w] ∧
+    validateScope (some ("[".toList ++ w ++ "]".toList)) = some [.str w] := by
+  obtain ⟨s, hs⟩ := hp
+  have := parseValue_str_noquote hq hs
+  subst this
+  obtain ⟨h1, h2⟩ := scope_word_vs_list h
+  exact ⟨h1, by rw [h2, hs]⟩
+
+/-- **finding D25, for every such word**: a word that `parse_value` does *not* keep as the same text (numbers, `true`,
+    `none`, …) selects a different scope in the two spellings: `--scope 1` is the key `'1'`, `--scope [1]` the key `1` -/
+theorem scope_number_word_vs_list' {w : Str} (h : PlainWord w) (hp : parseValue w ≠ .str w) :
+    validateScope (some w) ≠ validateScope (some ("[".toList ++ w ++ "]".toList)) := by
+  obtain ⟨h1, h2⟩ := scope_word_vs_list h
+  rw [h1, h2]
+  intro e
+  simp only [Option.some.injEq, List.cons.injEq, and_true] at e
+  exact hp e.symm
+
+/-! ### refutations of the literal statements (includes = False) -/
+
+/-- the requested statement read literally, for all options: "the data returned by a scoped read is precisely the content
+    of the sub-dict at that path in the unscoped read's data" -/
+def ReadScopeDataStatement : Prop :=
+  ∀ (fs : FS) (o : ReadOpts) (c : Counter) (p : Comps) (S U : Entries), o.scope ≠ [] →
+    dataOf (readFile evalInt fs o c p) = some S →
+    dataOf (readFile evalInt fs { o with scope := [] } c p) = some U →
+    scopeOf U o.scope = some S
+
+/-- "if the path does not exist in what the unscoped read returns, the scoped read stops" -/
+def ReadScopeMissingStatement : Prop :=
+  ∀ (fs : FS) (o : ReadOpts) (c : Counter) (p : Comps) (U : Entries), o.scope ≠ [] →
+    dataOf (readFile evalInt fs { o with scope := [] } c p) = some U → pathExists U o.scope = false →
+    dataOf (readFile evalInt fs o c p) = none
+
+def cexSrc : Comps := ["w".toList, "case".toList]
+
+/-- ```
+    a
+    {
+        #include 'x'
+        k 5;
+    }
+    myINCLUDE0
+    {
+        q 1;
+    }
+    ``` (the included file `x` need not exist: includes are not merged) -/
+def cexFs : FS := [(cexSrc, .native "a\n{\n    #include 'x'\n    k 5;\n}\nmyINCLUDE0\n{\n    q 1;\n}\n".toList)]
+
+def cexPh : Str := "INCLUDE000000".toList
+
+theorem cex_unscoped : dataOf (readFile evalInt cexFs { includes := false } none cexSrc) =
+    some [(.str "a".toList, .dict [(.str cexPh, .leaf (.str cexPh)), (.str "k".toList, .leaf (.int 5))])] := by
+  decide +kernel
+
+theorem cex_scoped_a : dataOf (readFile evalInt cexFs { includes := false, scope := [.str "a".toList] } none cexSrc) =
+    some [(.str "k".toList, .leaf (.int 5))] := by
+  decide +kernel
+
+theorem cex_scoped_incl : dataOf (readFile evalInt cexFs { includes := false, scope := [.str "myINCLUDE0".toList] } none cexSrc) =
+    some [(.str "q".toList, .leaf (.int 1))] := by
+  decide +kernel
+
+/-- **refutation 1** (`includes=False`, an `#include` directive inside the sub-dict): the scoped read drops the
+    placeholder entry `INCLUDE000000` (it is at the top level after `reduce_scope`), the unscoped read keeps it in the
+    nested dict (`_remove_include_keys` looks at the top level only) — even the key sets differ -/
+theorem C14_read_scope_data_statement_false : ¬ ReadScopeDataStatement := by
+  intro h
+  have := h cexFs { includes := false, scope := [.str "a".toList] } none cexSrc _ _ (by decide) cex_scoped_a cex_unscoped
+  revert this
+  decide
+
+/-- **refutation 2** (`includes=False`, a scope key that `INCLUDE[0-9;]+` matches): the unscoped read has deleted the
+    whole entry `myINCLUDE0`, the scoped read finds it and returns its content -/
+theorem C14_read_scope_missing_statement_false : ¬ ReadScopeMissingStatement := by
+  intro h
+  have := h cexFs { includes := false, scope := [.str "myINCLUDE0".toList] } none cexSrc _ (by decide) cex_unscoped (by decide)
+  rw [cex_scoped_incl] at this
+  cases this
+
+/-- the hypothesis `FirstKeyOK` is what fails in refutation 2, and only `includes=False` is affected -/
+example : FirstKeyOK { includes := false, scope := [.str "myINCLUDE0".toList] } = false ∧
+    FirstKeyOK { includes := false, scope := [.str "a".toList] } = true ∧
+    ∀ sc, FirstKeyOK { scope := sc } = true := ⟨by decide, by decide, fun _ => rfl⟩
+
+/-- two block comments with the same text in the sub-dict, ids descending: `_clean` keeps the first one it meets -/
+def cexSD : SD :=
+  { data := [(.str "a".toList, .dict [(.str "BLOCKCOMMENT000002".toList, .leaf (.str "BLOCKCOMMENT000002".toList)),
+                                      (.str "BLOCKCOMMENT000001".toList, .leaf (.str "BLOCKCOMMENT000001".toList))])],
+    blockC := [(2, "/* x */".toList), (1, "/* x */".toList)] }
+
+/-- **refutation 3**: on arbitrary SDicts `reduce_scope` and `order_keys` do not commute (`_clean` inside `reduce_scope`
+    removes the *second* of two comments with equal text, and ordering changes which one is second).  Not reachable from
+    `readFile` as far as is known: a parsed level has been cleaned already. -/
+theorem reduceScope_order_comm_false :
+    ¬ ∀ (s : SD) (scope : List Key) (sub : Entries), scope ≠ [] → NodupKeysV (.dict s.data) → scopeOf s.data scope = some sub →
+      (s.reduceScope scope).order = s.order.reduceScope scope := by
+  intro h
+  have hn : NodupKeysV (.dict cexSD.data) := by simp [cexSD, NodupKeysV, NodupKeysEs, keys]
+  have := congrArg SD.data (h cexSD [.str "a".toList]
+    [(.str "BLOCKCOMMENT000002".toList, .leaf (.str "BLOCKCOMMENT000002".toList)),
+     (.str "BLOCKCOMMENT000001".toList, .leaf (.str "BLOCKCOMMENT000001".toList))] (by decide) hn (by decide))
+  revert this
+  decide
+
+/-! ## non-vacuity -/
+
+def exSrc : Comps := ["w".toList, "case".toList]
+
+/-- nested dicts, an int key on the path, a list in the sub-dict -/
+def exFs : FS := [(exSrc, .native "a { 1 { k 5; l (1 2); } b 3; }\nz 0;\n".toList)]
+
+def exScope : List Key := [.str "a".toList, .int 1]
+
+def exSub : Entries := [(.str "k".toList, .leaf (.int 5)), (.str "l".toList, .list [.leaf (.int 1), .leaf (.int 2)])]
+
+def exData : Entries :=
+  [(.str "a".toList, .dict [(.int 1, .dict exSub), (.str "b".toList, .leaf (.int 3))]), (.str "z".toList, .leaf (.int 0))]
+
+theorem ex_unscoped : dataOf (readFile evalInt exFs {} none exSrc) = some exData := by decide +kernel
+
+/-- the scoped read, evaluated: precisely the sub-dict at `['a'][1]` -/
+theorem ex_scoped : dataOf (readFile evalInt exFs { scope := exScope } none exSrc) = some exSub := by decide +kernel
+
+example : scopeOf exData exScope = some exSub ∧ pathExists exData exScope = true := by decide
+
+/-- key text is data: the *string* `'1'` is not the int key `1`, the path does not exist, the read stops -/
+example : dataOf (readFile evalInt exFs { scope := [.str "a".toList, .str "1".toList] } none exSrc) = none ∧
+    pathExists exData [.str "a".toList, .str "1".toList] = false := by decide +kernel
+
+/-- `C14_read_scope_exact_subdict` instantiated on the file: all hypotheses hold -/
+example : ∃ u c', readFile evalInt exFs {} none exSrc = .ok (.ok u c') ∧ u.data = exData ∧
+    readFile evalInt exFs { scope := exScope } none exSrc = .ok (.ok { u with data := exSub } c') := by
+  obtain ⟨u, c', h, hd⟩ := exists_of_dataOf ex_unscoped
+  refine ⟨u, c', h, hd, ?_⟩
+  exact C14_read_scope_exact_subdict evalInt exFs { scope := exScope } none exSrc (by decide) rfl rfl h
+    (by rw [hd]; decide) (by simp [exSub, NodupKeysV, NodupKeysEs, NodupKeysXs, keys])
+    (by simp [exSub, C07.NoPhEs, C07.NoPhV, C07.isPhKey]; decide)
+
+/-- a JSON file whose keys contain quotes and brackets: the key text is compared, never interpreted -/
+def exJSrc : Comps := ["w".toList, "c.json".toList]
+def exJKey : Str := "q'[x]\"".toList
+def exJFs : FS :=
+  [(exJSrc, .json [(.str "a".toList, .dict [(.str exJKey, .dict [(.str "k".toList, .leaf (.int 5))]), (.str "q".toList, .dict [])])])]
+
+example : dataOf (readFile evalInt exJFs { scope := [.str "a".toList, .str exJKey] } none exJSrc) =
+    some [(.str "k".toList, .leaf (.int 5))] := by decide +kernel
+
+/-- a prefix of the key text (`q`) is another key -/
+example : dataOf (readFile evalInt exJFs { scope := [.str "a".toList, .str "q".toList] } none exJSrc) = some [] := by
+  decide +kernel
+
+/-- ordered scoped read: the ordered sub-dict -/
+example : dataOf (readFile evalInt exFs { scope := [.str "a".toList], order := true } none exSrc) =
+    some [(.int 1, .dict exSub), (.str "b".toList, .leaf (.int 3))] := by decide +kernel
+
+/-! #### the API: a missing scope writes nothing, an existing scope writes `parsed.case_a_1` -/
+
+def exWorld : World := { fs := exFs }
+
+def outTag : ApiOut → Nat
+  | .data _ => 0 | .done => 1 | .exit1 => 2 | .notFound => 3 | .gaveUp _ => 4
+
+example : outTag (apiStep evalInt exWorld (.parse exSrc { scope := [.str "a".toList, .int 2] } ['w'] none)).2 = 2 ∧
+    C13api.paths (apiStep evalInt exWorld (.parse exSrc { scope := [.str "a".toList, .int 2] } ['w'] none)).1.fs = [exSrc] := by
+  decide +kernel
+
+def exTarget : Comps := ["w".toList, "parsed.case_a_1".toList]
+
+example : parseTarget exSrc exScope none = exTarget := by decide +kernel
+
+theorem ex_parse :
+    outTag (apiStep evalInt exWorld (.parse exSrc { scope := exScope } ['w'] none)).2 = 0 ∧
+    C13api.paths (apiStep evalInt exWorld (.parse exSrc { scope := exScope } ['w'] none)).1.fs = [exSrc, exTarget] := by
+  decide +kernel
+
+/-- `C14_read_scope_missing` instantiated: the scope `['a'][2]` does not exist, `read` and `parse` leave the world alone -/
+example : apiStep evalInt exWorld (.read exSrc { scope := [.str "a".toList, .int 2] }) = (exWorld, .exit1) ∧
+    ∀ mode output, apiStep evalInt exWorld (.parse exSrc { scope := [.str "a".toList, .int 2] } mode output) = (exWorld, .exit1) := by
+  obtain ⟨u, c', h, hd⟩ := exists_of_dataOf ex_unscoped
+  exact (C14_read_scope_missing evalInt exWorld { scope := [.str "a".toList, .int 2] } exSrc (by decide) rfl h
+    (by rw [hd]; decide)).2.2.2 (.native _) rfl
+
+/-- `C14_parse_scope_target` instantiated: the target of `parse(case, scope=['a', 1])` is `parsed.case_a_1` in the same
+    folder, every other path is untouched, and what is returned is the dict reduced to the sub-dict -/
+example : ∃ u c', u.data = exData ∧
+    parseTarget (["w".toList] ++ ["case".toList]) exScope none = ["w".toList] ++ ["parsed.case_a_1".toList] ∧
+    (scopedSD { scope := exScope } u exSub).data = exSub ∧
+    (∀ t c'', writeText evalInt exWorld.fs exTarget ['w'] false (.sd (scopedSD { scope := exScope } u exSub)) c' = .ok (t, c'') →
+      apiStep evalInt exWorld (.parse exSrc { scope := exScope } ['w'] none) =
+        ({ fs := exWorld.fs.set (resolveSpelled exTarget) (.native t), c := c'' }, .data (scopedSD { scope := exScope } u exSub))) := by
+  obtain ⟨u, c', h, hd⟩ := exists_of_dataOf ex_unscoped
+  have hsub : scopeOf u.data exScope = some exSub := by rw [hd]; decide
+  obtain ⟨h1, h2, _, _⟩ := C14_parse_scope_target evalInt exWorld { scope := exScope } ["w".toList] "case".toList ['w'] none
+    (by decide) rfl (b := .native _) rfl h hsub
+  have htn : targetName "case".toList (some "parsed".toList) (exScope.map keyText) none = "parsed.case_a_1".toList := by
+    decide +kernel
+  refine ⟨u, c', hd, by rw [h1, htn], ?_, ?_⟩
+  · have hn : NodupKeysV (.dict exSub) := by simp [exSub, NodupKeysV, NodupKeysEs, NodupKeysXs, keys]
+    have hp : C07.NoPhEs exSub := by simp [exSub, C07.NoPhEs, C07.NoPhV, C07.isPhKey]; decide
+    simp only [scopedSD, ordIf, dropIncl, Bool.false_eq_true, if_false, if_true, C14.updateD_nil_of_nodup hn.1]
+    rw [C07.clean_id { u with data := exSub } hn hp]
+  · intro t c'' hw
+    have hpt : parseTarget (["w".toList] ++ ["case".toList]) exScope none = exTarget := by rw [h1, htn]; rfl
+    rw [hpt] at h2
+    exact h2 t c'' hw
+
+/-! #### C17 -/
+
+example : PlainWord "abc".toList ∧ (∀ c ∈ "abc".toList, isQuote c = false) ∧ parseValue "abc".toList = .str "abc".toList := by
+  decide
+
+example : validateScope (some "abc".toList) = some [.str "abc".toList] ∧
+    validateScope (some "[abc]".toList) = some [.str "abc".toList] :=
+  C17_scope_word_list (by decide) (by decide) ⟨_, (by decide : parseValue "abc".toList = .str "abc".toList)⟩
+
+example : validateScope (some "12".toList) ≠ validateScope (some "[12]".toList) :=
+  scope_number_word_vs_list' (by decide) (by decide)
+
+/-
+#print axioms C14_read_scope
+#print axioms C14_read_scope_errors
+#print axioms C14_read_scope_unordered
+#print axioms C14_read_scope_of_unscoped
+#print axioms C14_read_scope_data
+#print axioms C14_read_scope_data_core
+#print axioms C14_read_scope_plain
+#print axioms C14_read_scope_exact_subdict
+#print axioms C14_read_scope_ordered
+#print axioms reduceScope_order_comm
+#print axioms C14_read_scope_missing
+#print axioms C14_read_scope_missing_core
+#print axioms C14_parse_scope_target
+#print axioms C17_scope_word_list
+#print axioms scope_word_vs_list
+#print axioms scope_number_word_vs_list'
+#print axioms C14_read_scope_data_statement_false
+#print axioms C14_read_scope_missing_statement_false
+#print axioms reduceScope_order_comm_false
+-- all of them: [propext, Classical.choice, Quot.sound] or a subset
+-/
 
 end C14read
 end DictIO
